@@ -100,7 +100,8 @@ func (s *Sniffer) SniffQuic() (d string, err error) {
 	if err != nil {
 		// "not found" after a complete walk over the extensions of a complete
 		// ClientHello is final; more datagrams cannot change it.
-		s.needMore = !errors.Is(err, ErrNotFound)
+		// Likewise every other error once the first handshake message is complete.
+		s.needMore = !errors.Is(err, ErrNotFound) && !quicHelloComplete(s.quicCryptos)
 		return "", ErrNotFound
 	}
 	return sni, nil
@@ -191,4 +192,15 @@ func sniffQuicBlock(s *Sniffer, cryptos []*quicutils.CryptoFrameOffset, buf []by
 		return cryptos, buf[blockEnd:], ErrNotApplicable
 	}
 	return new, buf[blockEnd:], nil
+}
+
+// quicHelloComplete reports whether the CRYPTO stream is contiguous from offset 0
+// through the end of the first handshake message (4 + its declared length). Once it
+// is, no further datagram can change the verdict, so every extract error is final.
+func quicHelloComplete(c []*quicutils.CryptoFrameOffset) bool {
+	if len(c) == 0 || c[0].UpperAppOffset != 0 || len(c[0].Data) < 4 {
+		return false
+	}
+	d := c[0].Data
+	return len(d) >= 4+(int(d[1])<<16|int(d[2])<<8|int(d[3]))
 }
